@@ -641,6 +641,20 @@ class HTTPResponse(BaseHTTPResponse):
         if preload_content and not self._body:
             self._body = self.read(decode_content=decode_content)
 
+    def _decode(
+        self, data: bytes, decode_content: bool | None, flush_decoder: bool
+    ) -> bytes:
+        try:
+            return super()._decode(data, decode_content, flush_decoder)
+        except DecodeError:
+            # Content decoding happens outside of _error_catcher(): make sure the
+            # connection that carried an undecodable body is not reused.
+            if self._original_response:
+                self._original_response.close()
+            if self._connection:
+                self._connection.close()
+            raise
+
     def release_conn(self) -> None:
         if not self._pool or not self._connection:
             return None
